@@ -106,6 +106,50 @@ def restart(versions, fmts, N):
     return fn
 
 
+def stop_race(fmts):
+    """stop() racing with the pump that is processing an id request (one pre-emption at any
+    statement boundary): an id whose response really left the gateway must be in the file."""
+    def fn(w):
+        from symex.sched import Sched, SchedLock
+        fmt = w.pick(fmts, "format")
+        fs = P.make_fs(w, fmt)
+        with fs.installed():
+            g = P.pgateway(w, "2.2", fmt)
+            ids = C.gen_network(w, g, ["bare"])
+            pers = g.gw.tasks.persistence
+            pers.need_save = False
+            fs.files[P.fname(fmt)] = [("GOOD", P.snapshot(g.gw.sensors)), True]
+            tasks = g.gw.tasks
+            w.call(tasks.add_job, g.gw.logic, "255;255;3;0;3;\n")
+            sc = Sched(w, 1)
+            tasks.transport._lock = SchedLock(sc)
+
+            def pump(call):
+                reply = call(tasks.run_job)
+                call(tasks.transport.send, reply)
+            t1 = sc.spawn("pump", pump)
+            t2 = sc.spawn("stop", lambda call: call(g.gw.stop))
+            sc.run()
+            w.info = {"format": fmt, "schedule": list(sc.trace)[-40:]}
+            for t in (t1, t2):
+                if t.exc is not None:
+                    w.escaped(t.exc, f"thread {t.name} raised")
+            sent = [C._decode_written(d) for d, closed in g.conn.written]
+            fs.after_crash(False)
+            g2 = P.pgateway(w, "2.2", fmt)
+            w.call(g2.gw.tasks.persistence.safe_load_sensors)
+            if sent:
+                w.goal("id-sent")
+                from mysensors.message import Message
+                p1 = w.call(int, w.get(w.new(Message, sent[0]), "payload"))
+                w.check(w.or_(*[w.eq(k, p1) for k in g2.gw.sensors.keys()]),
+                        "an id whose response left the gateway before stop() finished is not in "
+                        "the saved file: it will be handed out again after the restart")
+            else:
+                w.goal("id-not-sent")
+    return fn
+
+
 def build(tier):
     q = tier == "quick"
     N = 2 if q else 3
@@ -118,6 +162,11 @@ def build(tier):
                 {"known_nodes": f"0..{N}", "formats": ["json", "pickle"]},
                 goals=["two-ids"],
                 doc="id request, [tick], stop(), restart + load, id request"),
+        Harness("stop-race", stop_race(["json"] if q else ["json", "pickle"]),
+                {"mode": "reexec", "threads": "pump processing an id request || stop()",
+                 "preemption_budget": 1, "granularity": "statement boundaries of repository code"},
+                goals=["id-sent", "id-not-sent"],
+                doc="stop() racing with the pump: a sent id is always persisted"),
     ]
     return {
         "harnesses": hs,
